@@ -487,7 +487,7 @@ struct Node {
 std::unique_ptr<Node> MakeNode(const Chain& ch, int H, int Hh)
 {
     auto n = std::make_unique<Node>();
-    n->b = std::make_unique<TestingSetup>(ChainType::REGTEST, TestOpts{.extra_args = {"-debug=0"}, .setup_net = false});
+    n->b = std::make_unique<TestingSetup>(ChainType::REGTEST, TestOpts{.extra_args = {"-debug=0", "-checkmempool=0"}, .setup_net = false});
     n->H = H;
     n->Hh = std::max(H, Hh);
     BlockValidationState st;
